@@ -118,6 +118,24 @@ MatProgs ==
             <<<<1, 2, 3>>, <<2, 3, 2>>>>},
      k \in Kinds2}
 
+\* multi_matmul: chains of three and four operands, 1-D ends, every mix of constant flags, a plain array as an operand
+MultiMatProgs ==
+  {<< Leaf(1, p[1], "A", k[1]), Leaf(2, p[2], "B", k[2]), Leaf(3, p[3], "NZ", k[3]),
+      [k |-> "op", h |-> 4, f |-> "multimatmul", a |-> <<Opnd(1), Opnd(2), Opnd(3)>>] >> :
+     p \in {<<<<2, 3>>, <<3, 2>>, <<2, 2>>>>, <<<<3>>, <<3, 2>>, <<2>>>>, <<<<2, 3>>, <<3, 2>>, <<2>>>>, <<<<3>>, <<3, 2>>, <<2, 2>>>>,
+            <<<<1, 3>>, <<3, 3>>, <<3, 1>>>>},
+     k \in {<<a, b, c>> : a \in BOOLEAN, b \in BOOLEAN, c \in BOOLEAN}}
+  \cup {<< Leaf(1, <<2, 3>>, "A", k[1]), Leaf(2, <<3>>, "B", k[2]),
+           [k |-> "op", h |-> 3, f |-> "multimatmul", a |-> os] >> :
+          k \in {<<FALSE, FALSE>>, <<TRUE, FALSE>>, <<FALSE, TRUE>>},
+          os \in {<<[arr |-> [sh |-> <<2, 2>>, v |-> Vec(4, "NZ")]], Opnd(1), Opnd(2)>>,                 \* array first, 1-D tensor last
+                  <<[arr |-> [sh |-> <<2>>, v |-> Vec(2, "NZ")]], Opnd(1), Opnd(2)>>,                    \* 1-D array first
+                  <<Opnd(2), [arr |-> [sh |-> <<3, 2>>, v |-> Vec(6, "NZ")]], Opnd(1), Opnd(2)>>,        \* the same tensor at both ends
+                  <<Opnd(1), [arr |-> [sh |-> <<3, 3>>, v |-> Vec(9, "NZ")]], [arr |-> [sh |-> <<3>>, v |-> Vec(3, "B")]]>>}}
+  \cup {<< Leaf(1, <<3>>, "A", k[1]), Leaf(2, <<3, 2>>, "B", FALSE), Leaf(3, <<2, 3>>, "NZ", k[2]), Leaf(4, <<3>>, "B", k[3]),
+           [k |-> "op", h |-> 5, f |-> "multimatmul", a |-> <<Opnd(1), Opnd(2), Opnd(3), Opnd(4)>>, kw |-> kw] >> :
+          k \in {<<a, b, c>> : a \in BOOLEAN, b \in BOOLEAN, c \in BOOLEAN}, kw \in {<<>>, [constant |-> "false"]}}
+
 IdxFor(sh) ==
   IF Len(sh) = 1 THEN {Basic(<<SL(TRUE, 0, FALSE, 2, TRUE, 1)>>), Basic(<<SL(TRUE, 0, TRUE, 0, FALSE, -1)>>), Basic(<<IntI(-1)>>),
                        Basic(<<[t |-> "new"], Full>>), Basic(<<[t |-> "ell"]>>),
@@ -322,7 +340,7 @@ InPlaceProgs ==
             : upd \in {"aug", "augs", "set"}, ch \in Chains(1)} : ord \in {"C", "F"}}
 
 Progs == CASE Group = "binary" -> BinProgs [] Group = "unary" -> UnProgs [] Group = "reduce" -> RedProgs
-           [] Group = "matmul" -> MatProgs [] Group = "getitem" -> GetProgs [] Group = "setitem" -> SetProgs
+           [] Group = "matmul" -> MatProgs \cup MultiMatProgs [] Group = "getitem" -> GetProgs [] Group = "setitem" -> SetProgs
            [] Group = "whereout" -> WhereOutProgs [] Group = "move" -> MoveProgs
            [] Group = "activation" -> ActProgs [] Group = "cumulative" -> CumProgs [] Group = "sequence" -> SeqProgs
            [] Group = "einsum" -> EinProgs [] Group = "conv" -> ConvProgs [] Group = "maxpool" -> PoolProgs
